@@ -289,7 +289,8 @@ CHECKS = {
              "shape; theorems show every kernel's per-byte classifier is exactly the scalar delimiter set (all 256 bytes), "
              "the 16-byte block loop with overlapping tail re-load equals the scalar search for every string, start and "
              "class, has_tabs_or_newline answers 'contains tab/LF/CR', and every load is inside the buffer. The same "
-             "seeded operation corpus (parse, histories, can_parse, IPv4/IPv6-shaped hosts) runs on the SSE2, SSSE3, "
+             "seeded operation corpus (parse, histories, can_parse, IPv4/IPv6-shaped hosts, the URLPattern canonicalisation callbacks "
+             "and process_* steps) runs on the SSE2, SSSE3, "
              "AVX-512(BW+VL), development-checks and amalgamated builds; outputs must be identical and no assertion fire.",
         design_ref="DESIGN.md §5 C18",
         note="Compiler code generation, the AVX-512 IPv4 kernel, ipv6_structure_plausible and amalgamate.py are compared "
@@ -321,9 +322,15 @@ CHECKS = {
         text="Theorems (Props/C14.lean): for any provider whose isMatch agrees with search, fast_test = fast_match.isSome for "
              "every component type, hence test() = exec().has_value over the eight components; for a provider lawful on the "
              "three anchored shapes the EMPTY/EXACT/WILDCARD shortcuts return exactly what the generated regex returns, with "
-             "the same name list; EXACT is never chosen under ignoreCase. On the implementation: generated patterns (part "
+             "the same name list; EXACT is never chosen under ignoreCase; url_string_inputs_are_components - the eight component inputs "
+             "match()/test() read off the parsed url_aggregator (get_protocol minus ':', get_username, get_password, get_hostname, "
+             "get_port, get_pathname, get_search minus '?', get_hash minus '#') are, for the buffer holding the Standard's record u "
+             "(what the parser leaves - C01), u's scheme, credentials, serialised host, decimal port, serialised path, query and "
+             "fragment (Lemmas/PatternCanon: getUsername/getPassword/getPort/getHostname_layout). On the implementation: generated patterns (part "
              "grammar, init dictionaries, constructor strings, ignoreCase) x inputs (strings with/without base, dictionaries): "
-             "test()==exec(), reported inputs == the parsed URL's components, and the pattern compiled with the "
+             "test()==exec(), reported inputs == the parsed URL's components (for dictionary inputs: the search / hash inputs == "
+             "'process search / hash for init' of the given value, computed by Model/PatternCanon.processSearch / processHash, which "
+             "Props/C15.process_for_init_is_standard proves equal to the Standard's steps), and the pattern compiled with the "
              "ADA_URL_ADA_VERIF hook that disables the shortcuts gives identical answers, groups, names, pattern strings.",
         design_ref="DESIGN.md §5 C14", category="proof",
         note="partial: the regular-expression engine is a parameter of the model (laws stated, std::regex used for the run); "
